@@ -244,7 +244,12 @@ def run_case(ctx, case):
                     import copy as _copy
                     import pickle as _pickle
                     ncopy["n"] += 1
-                    lan = _copy.deepcopy(lan) if ncopy["n"] % 2 else _pickle.loads(_pickle.dumps(lan))
+                    try:
+                        lan = _copy.deepcopy(lan) if ncopy["n"] % 2 else _pickle.loads(_pickle.dumps(lan))
+                    except Exception:  # noqa: BLE001
+                        # the object cannot be copied (e.g. it holds a lock): nothing promises that it can - the application
+                        # goes on with the original
+                        ncopy["refused"] = ncopy.get("refused", 0) + 1
             elif letter == "set_lifetime":
                 # the application applies its configuration again (same value) while the connection is alive
                 lan.max_connection_lifetime = lifetime
@@ -315,7 +320,8 @@ def run_case(ctx, case):
             _time.tzset()
     ctx.count(("hist", tuple(letters), lifetime, case.get("tz"), tuple(case.get("epoch") or ())), nontrivial=len(letters) > 0, kind=f"history-depth-{min(len(letters), 5)}",
               sample={"letters": letters, "lifetime": lifetime, "calls": [(round(c[0], 3), c[2], c[3]) for c in calls]} if len(letters) == 3 else None)
-    ctx.bump("objects-replaced-by-a-copy", ncopy["n"])
+    ctx.bump("objects-replaced-by-a-copy", ncopy["n"] - ncopy.get("refused", 0))
+    ctx.bump("copies-the-object-refused (not judged)", ncopy.get("refused", 0))
     _check(ctx, case, dev, net, calls, windows, lifetime)
     # the closing plain send against a healthy device must succeed (recovery is C08's business; recorded only)
     if calls and calls[-1][3] != "ok":
